@@ -19,8 +19,8 @@ package control
 // contents, mirror flag), drift = bookkeeping (batch shapes, refresh queue, expiry/refresh/LRU policy, stamps).
 //   c10t : tnew | tupd <ok|uf|df> <owner> <bmlen> <bits> <ans>* | trm <ok|uf|df> <owner> | tnil upd|rm |
 //          tnobpf upd|rm <owner> | tnomap <owner> <bits> <ans>* | tdump            (uf/df: the update / delete batch syscall fails)
-//   c10c : cnew <opt> <optTtl> <max> <real> | put|putf <key|~> <fqdn> <qtype> <ttl> <fixedTtl|-> <bits> <ans>* | del <key> |
-//          fam <base> <observed order>* | look <key> <ignoreFixed> <evicted> <queued> | jan <observed order>* |
+//   c10c : cnew <opt> <optTtl> <max> <real> | put <stored> <key|~> … | putf <key|~> <fqdn> <qtype> <ttl> <fixedTtl|-> <bits> <ans>* | del <key> |
+//          fam <base> <evicted keys>* | look <key> <ignoreFixed> <evicted> <queued> | jan <evicted keys>* |
 //          sleep <ns> | work | touch <key> | hot <key> <packed> <evicted> <queued> | reload <key=bits>* | cdump
 // Virtual time: every cache history runs inside a testing/synctest bubble; every cache op starts 1 ns after
 // the previous one (no equal LRU stamps => runs are reproducible for a seed).
